@@ -70,6 +70,9 @@ pub struct Case {
     /// some evaluation values are NaN / +-infinity
     #[serde(default)]
     pub special: bool,
+    /// invoke the API twice in a row on the same dataset
+    #[serde(default)]
+    pub repeat: bool,
 }
 
 #[derive(Clone, Debug, Default, Serialize, Deserialize)]
@@ -664,14 +667,28 @@ where
 
 /// Run one case against the real `linfa::DatasetBase` code.
 pub fn run_case(case: &Case) -> CaseOut {
+    let mut b = make_buffers(case);
+    let pristine_rec = b.rec.clone();
+    let pristine_tgt = b.tgt2.clone();
+    let mut out = run_once(case, &mut b, &pristine_rec, &pristine_tgt);
+    if case.repeat && out.violation.is_none() && case.panic_at.is_none() {
+        // the same call once more on the same dataset: nothing may be left behind by the first
+        let second = run_once(case, &mut b, &pristine_rec, &pristine_tgt);
+        out.fit_calls += second.fit_calls;
+        out.eval_calls += second.eval_calls;
+        if let Some(v) = second.violation {
+            out.violation = Some(format!("second call on the same dataset: {v}"));
+        }
+    }
+    out
+}
+
+fn run_once(case: &Case, b: &mut Buffers, pristine_rec: &Array2<f64>, pristine_tgt: &Array2<f64>) -> CaseOut {
     let mut out = CaseOut::default();
     let fs = case.n / case.k;
     let geo = Rc::new(Geometry { n: case.n, k: case.k, fs });
     out.tail_rows = case.n - fs * case.k;
     let log: SharedLog = Rc::new(RefCell::new(Log::default()));
-    let mut b = make_buffers(case);
-    let pristine_rec = b.rec.clone();
-    let pristine_tgt = b.tgt2.clone();
     let (pad, step, n) = (b.pad, b.step, case.n);
     let single = case.nt == 0;
 
@@ -786,7 +803,7 @@ pub fn run_case(case: &Case) -> CaseOut {
     out.fired = lg.fired.clone();
     out.fit_calls = lg.fits.len();
     out.eval_calls = lg.evals.len();
-    let intact = b.rec == pristine_rec && b.tgt2 == pristine_tgt;
+    let intact = b.rec == *pristine_rec && b.tgt2 == *pristine_tgt;
     if panicked {
         if case.panic_at.is_some() {
             // outside the statement (it speaks about returning): observation only
@@ -801,7 +818,7 @@ pub fn run_case(case: &Case) -> CaseOut {
         out.violation.get_or_insert(v.clone());
     }
     if !intact {
-        let what = if b.rec != pristine_rec { "records" } else { "targets" };
+        let what = if b.rec != *pristine_rec { "records" } else { "targets" };
         // first row that moved
         let row = (0..b.rec.nrows()).find(|&r| b.rec.row(r) != pristine_rec.row(r) || b.tgt2.row(r) != pristine_tgt.row(r)).unwrap_or(0);
         let guard = row < pad || row >= pad + n * step;
@@ -860,12 +877,12 @@ pub fn plan(tier: &str, seed: u64) -> Plan {
             // fold(): every layout, single/multi target
             for layout in [Layout::Owned, Layout::ViewContig, Layout::ViewStrided, Layout::OwnedColMajor, Layout::ViewTransposed] {
                 for nt in [0usize, 2] {
-                    cases.push(Case { api: Api::Fold, n, k, nf: 1 + (n + k) % 3, nt, layout, models: 1, faults: vec![], f32acc: false, dyadic: true, val_seed: 0, panic_at: None, special: false });
+                    cases.push(Case { api: Api::Fold, n, k, nf: 1 + (n + k) % 3, nt, layout, models: 1, faults: vec![], f32acc: false, dyadic: true, val_seed: 0, panic_at: None, special: false, repeat: false });
                 }
             }
             for layout in [Layout::Owned, Layout::ViewContig] {
                 for nt in [0usize, 1, 3] {
-                    cases.push(Case { api: Api::IterFold, n, k, nf: 1 + (n * k) % 4, nt, layout, models: 1, faults: vec![], f32acc: false, dyadic: true, val_seed: 0, panic_at: None, special: false });
+                    cases.push(Case { api: Api::IterFold, n, k, nf: 1 + (n * k) % 4, nt, layout, models: 1, faults: vec![], f32acc: false, dyadic: true, val_seed: 0, panic_at: None, special: false, repeat: false });
                 }
             }
             // cross_validate: fault plans — all singles everywhere; all pairs on the small grid
@@ -892,6 +909,7 @@ pub fn plan(tier: &str, seed: u64) -> Plan {
                         val_seed: h,
                         panic_at: None,
                         special: h & 512 != 0 && h & 256 == 0,
+                        repeat: h & 1024 != 0,
                     });
                 }
             }
@@ -938,13 +956,14 @@ pub fn plan(tier: &str, seed: u64) -> Plan {
             val_seed: r.next_u64(),
             panic_at: None,
             special: r.chance(0.2),
+            repeat: r.chance(0.3),
         });
     }
     // datasets without feature columns (legal: only the targets carry information)
     for (n, k) in [(4usize, 2usize), (7, 3), (9, 4), (6, 6)] {
         for nt in [0usize, 2] {
             for api in [Api::Fold, Api::IterFold, Api::CrossValidate] {
-                cases.push(Case { api, n, k, nf: 0, nt, layout: Layout::Owned, models: 2, faults: vec![], f32acc: false, dyadic: true, val_seed: 5, panic_at: None, special: false });
+                cases.push(Case { api, n, k, nf: 0, nt, layout: Layout::Owned, models: 2, faults: vec![], f32acc: false, dyadic: true, val_seed: 5, panic_at: None, special: false, repeat: false });
             }
         }
     }
@@ -952,7 +971,7 @@ pub fn plan(tier: &str, seed: u64) -> Plan {
     // the dataset must still come back intact and the result is an empty score array
     for (n, k) in [(5usize, 2usize), (7, 3), (9, 9)] {
         for nt in [0usize, 2] {
-            cases.push(Case { api: Api::CrossValidate, n, k, nf: 2, nt, layout: Layout::ViewContig, models: 0, faults: vec![], f32acc: false, dyadic: true, val_seed: 3, panic_at: None, special: false });
+            cases.push(Case { api: Api::CrossValidate, n, k, nf: 2, nt, layout: Layout::ViewContig, models: 0, faults: vec![], f32acc: false, dyadic: true, val_seed: 3, panic_at: None, special: false, repeat: false });
         }
     }
     // panic probes (observation only)
@@ -973,6 +992,7 @@ pub fn plan(tier: &str, seed: u64) -> Plan {
                     val_seed: 1,
                     panic_at: Some(Fault { fold: k - 1, model: 0, stage }),
                     special: false,
+                    repeat: false,
                 });
             }
         }
@@ -1043,6 +1063,11 @@ pub fn shrink_candidates(c: &Case) -> Vec<Case> {
     if c.special {
         let mut d = c.clone();
         d.special = false;
+        push(&mut v, d);
+    }
+    if c.repeat {
+        let mut d = c.clone();
+        d.repeat = false;
         push(&mut v, d);
     }
     v
